@@ -94,3 +94,70 @@ def ite(c, a, b):
 
 def join_bytes(l):
     return b''.join(l)
+
+
+def gunzip(b):
+    import gzip, io
+    return gzip.GzipFile(fileobj=io.BytesIO(b), mode="r").read()
+
+
+def gzip_ok(b):
+    try:
+        gunzip(b)
+        return True
+    except Exception:
+        return False
+
+
+def unsnappy(b):
+    raise NotImplementedError
+
+
+def snappy_ok(b):
+    return False
+
+
+def drain(g):
+    return list(g)
+
+
+def mkgen(qualname, *args):
+    import importlib
+    parts = qualname.split('.')
+    mod = importlib.import_module('.'.join(parts[:2]))
+    obj = mod
+    for p in parts[2:]:
+        obj = getattr(obj, p)
+    return obj(*args)
+
+
+# ---- independent (protocol-guide) message encoder used by native harness expressions and input generation
+
+def nat_enc_bytes32(b):
+    return struct.pack('>i', -1) if b is None else struct.pack('>i', len(b)) + b
+
+
+def nat_enc_msg(magic, attributes, key, value, timestamp=0):
+    body = struct.pack('>bb', magic, attributes)
+    if magic == 1:
+        body += struct.pack('>q', timestamp)
+    body += nat_enc_bytes32(key) + nat_enc_bytes32(value)
+    return struct.pack('>I', zlib.crc32(body) & 0xFFFFFFFF) + body
+
+
+def nat_enc_msgset(entries):
+    """entries: [(offset, message bytes)]"""
+    return b''.join(struct.pack('>qi', off, len(m)) + m for off, m in entries)
+
+
+def nat_gzip(b):
+    import gzip, io
+    buf = io.BytesIO()
+    with gzip.GzipFile(fileobj=buf, mode='w', mtime=0) as f:
+        f.write(b)
+    return buf.getvalue()
+
+
+def nat_wrap_gzip(magic, message_set, timestamp=0):
+    """a compressed wrapper message (bytes) around message_set"""
+    return nat_enc_msg(magic, 1, None, nat_gzip(message_set), timestamp)
